@@ -145,13 +145,12 @@ func (d *topSortData) markDone(i int) {
 
 // BinarySearch looks for toFind in a sorted slice, and returns the index at which it either is or would be were it to be inserted.
 func BinarySearch(slice []int, toFind int) int {
-	var start int
-	for end := len(slice); start != end; {
+	start, end := 0, len(slice)
+	for start < end {
 		mid := (start + end) / 2
-		if toFind >= slice[mid] {
-			start = mid
-		}
-		if toFind <= slice[mid] {
+		if slice[mid] < toFind {
+			start = mid + 1
+		} else {
 			end = mid
 		}
 	}
@@ -161,13 +160,11 @@ func BinarySearch(slice []int, toFind int) int {
 // BinarySearchFunc looks for toFind in an increasing function of domain 0 ... (end-1), and returns the index at which it either is or would be were it to be inserted.
 func BinarySearchFunc(eval func(int) int, end int, toFind int) int {
 	var start int
-	for start != end {
+	for start < end {
 		mid := (start + end) / 2
-		val := eval(mid)
-		if toFind >= val {
-			start = mid
-		}
-		if toFind <= val {
+		if eval(mid) < toFind {
+			start = mid + 1
+		} else {
 			end = mid
 		}
 	}
